@@ -1,5 +1,6 @@
 """Rules on derived Arbitrary (C09, C14): range containment / equality, panic-row feasibility."""
 import math
+import re
 import struct
 
 from . import sym
@@ -93,6 +94,99 @@ def eval_bool_conds_interval(ex, conds, var, lo, hi):
     return L <= H
 
 
+def check_arbitrary_int_by_evaluation(rep, g, outs, equality):
+    """Generators of another shape than `int_in_range(lo..=hi)` that are a function of one integer draw: the outcome rows
+    extracted from MIR are evaluated at concrete draws (all 2^8 / 2^16 draws for 8/16-bit draws, the special values of wider
+    types). Only concrete witnesses are reported: a draw that reaches a panic row or makes a std operation panic (C09); for
+    exhaustively enumerated draws, a valid value that no draw produces (C14). Returns False if the shape is not such a function."""
+    d = g.d
+    ex = g.ex
+    fd = float_draw(ex, outs)
+    if fd is None:
+        return False
+    G, c = fd
+    try:
+        ty = g.F.tys(c.gargs[0])
+    except Exception:
+        return False
+    if ty not in sym.INT_TYPES:
+        return False
+    var = ('field', ('downcast', G, 0, 'Ok'), 0)
+    w = sym.INT_TYPES[ty]
+    lo_t, hi_t = (-(1 << (w - 1)), (1 << (w - 1)) - 1) if ty[0] == 'i' else (0, (1 << w) - 1)
+    sr = sigma_int_range(d)
+    exhaustive = w <= 16
+    if exhaustive:
+        draws = range(lo_t, hi_t + 1)
+    else:
+        pts = {lo_t, lo_t + 1, -1, 0, 1, 2, hi_t - 1, hi_t, hi_t // 2, lo_t // 2, 12345, -12345}
+        if sr:
+            for b in sr:
+                pts |= {b - 1, b, b + 1}
+        for k in range(0, w, 7):
+            pts |= {1 << k, (1 << k) - 1, -(1 << k)}
+        draws = sorted(x for x in pts if lo_t <= x <= hi_t)
+    produced = set()
+    panic_witness = None
+    undecided = None
+    rows = [o for o in outs if o.kind in ('return', 'diverge')]
+    for raw in draws:
+        env = {var: (ty, raw)}
+        hit = None
+        try:
+            for o in rows:
+                ok = True
+                for cnd, val in o.conds:
+                    if cnd[0] == 'discr':
+                        if cnd[1] == G:
+                            if val != 0:
+                                ok = False
+                                break
+                            continue
+                        raise Unknown('discriminant of another call')
+                    r = ceval(ex, cnd, env)
+                    if bool(r[1]) != truth(val):
+                        ok = False
+                        break
+                if ok:
+                    hit = o
+                    break
+            if hit is None:
+                continue
+            for e in hit.events:
+                if e[0] == 'assert' and len(e) > 4:
+                    r = ceval(ex, e[2], env)
+                    if bool(r[1]) != bool(e[4]):
+                        raise EvalPanic('generated arithmetic check fails: ' + str(e[1])[:80])
+            if hit.kind == 'diverge':
+                panic_witness = (raw, hit.why)
+                break
+            if is_ok(hit.ret) and is_adt(hit.ret[4][0]) and len(hit.ret[4][0][4]) == 1:
+                produced.add(ceval(ex, hit.ret[4][0][4][0], env)[1])
+        except EvalPanic as e:
+            panic_witness = (raw, str(e))
+            break
+        except Unknown as e:
+            undecided = str(e)
+            break
+    if undecided is not None:
+        rep.ob('R-ARB-INT', None, g, 'generator is a function of one integer draw, but its rows could not be evaluated', {'why': undecided})
+        return True
+    rep.ob('R-ARB-PANIC', panic_witness is None, g,
+           'no draw reaches a panic of arbitrary' + ('' if exhaustive else ' (special values of the draw type only)'),
+           {'draw': panic_witness[0] if panic_witness else None, 'why': panic_witness[1] if panic_witness else None, 'draw_type': ty})
+    if equality and sr and sr[0] <= sr[1] and panic_witness is None:
+        lo, hi = sr
+        if exhaustive and not d['sanitizers']:
+            missing = [v for v in range(lo, hi + 1) if v not in produced]
+            extra = sorted(v for v in produced if not (lo <= v <= hi))
+            rep.ob('R-ARB-INT', not missing and not extra, g, f'the values produced over all {len(draws)} draws are exactly the valid range [{lo}, {hi}]',
+                   {'never_produced': missing[:12], 'n_missing': len(missing), 'outside': extra[:6]})
+        else:
+            rep.ob('R-ARB-INT', None, g, 'generator shape is not int_in_range and the draw type is too wide to enumerate: range equality not decided', {})
+    return True
+
+
 def check_arbitrary_int(rep, g, equality):
     """R-ARB-INT. equality=True: generator range == valid range (C14); always: no reachable panic (C09)"""
     d = g.d
@@ -111,6 +205,8 @@ def check_arbitrary_int(rep, g, equality):
         rep.ob('R-ARB-INT', None, g, 'arbitrary: some paths could not be followed', {'why': [o.why for o in und][:3]})
     has_guard = bool(d['validators']) or bool(d['custom'])
     fi = find_int_in_range(ex, outs)
+    if fi is None and check_arbitrary_int_by_evaluation(rep, g, outs, equality):
+        return
     if fi is None:
         if not has_guard and not d['sanitizers']:
             # unconstrained integer: any generator is total; nothing to compare
@@ -375,6 +471,10 @@ class Unknown(Exception):
     pass
 
 
+class EvalPanic(Exception):
+    """the std operation itself panics for these operands (division by zero, MIN rem -1, ...)"""
+
+
 def ceval(ex, t, env):
     """concrete evaluation of a scalar term with the draw(s) bound in env (exact IEEE semantics)"""
     if t in env:
@@ -400,6 +500,20 @@ def ceval(ex, t, env):
         x, y = a[1], b[1]
         if op in sym.CMP:
             return ('bool', sym.CMP[op](x, y))
+        if ty in sym.INT_TYPES and op in ('Add', 'Sub', 'Mul', 'Div', 'Rem', 'BitAnd', 'BitOr', 'BitXor', 'Shl', 'Shr'):
+            w = sym.INT_TYPES[ty]
+            if op in ('Div', 'Rem'):
+                if y == 0:
+                    raise EvalPanic('division by zero')
+                q = abs(x) // abs(y) * (1 if (x >= 0) == (y >= 0) else -1)
+                r = q if op == 'Div' else x - q * y
+            elif op == 'Shl':
+                r = x << (y % w)
+            elif op == 'Shr':
+                r = x >> (y % w)
+            else:
+                r = {'Add': x + y, 'Sub': x - y, 'Mul': x * y, 'BitAnd': x & y, 'BitOr': x | y, 'BitXor': x ^ y}[op]
+            return (ty, sym.int_value(ty, sym.int_wrap(ty, r)))
         if sym.is_float(ty):
             try:
                 if op == 'Add':
@@ -426,6 +540,46 @@ def ceval(ex, t, env):
         if t[1] == 'Not' and a[0] == 'bool':
             return ('bool', not a[1])
         raise Unknown('un')
+    if tag == 'field' and t[1][0] == 'bin' and t[1][1].endswith('WithOverflow'):
+        a, b = ceval(ex, t[1][2], env), ceval(ex, t[1][3], env)
+        ty = a[0]
+        if ty in sym.INT_TYPES:
+            base = t[1][1][:-len('WithOverflow')]
+            r = {'Add': a[1] + b[1], 'Sub': a[1] - b[1], 'Mul': a[1] * b[1]}[base]
+            w = sym.INT_TYPES[ty]
+            lo, hi = (-(1 << (w - 1)), (1 << (w - 1)) - 1) if ty[0] == 'i' else (0, (1 << w) - 1)
+            if t[2] == 0:
+                return (ty, sym.int_value(ty, sym.int_wrap(ty, r)))
+            return ('bool', not (lo <= r <= hi))
+        raise Unknown('checked arithmetic on ' + ty)
+    if tag == 'call' and len(t[2]) == 2 and re.search(r'num::<impl [iu](8|16|32|64|128|size)>::(wrapping_add|wrapping_sub|wrapping_mul|wrapping_rem_euclid|rem_euclid|wrapping_rem|wrapping_div|div_euclid)$', cpath(ex, t)):
+        a = ceval(ex, strip_view(ex, t[2][0]), env)
+        b = ceval(ex, strip_view(ex, t[2][1]), env)
+        ty = a[0]
+        m = cpath(ex, t).rsplit('::', 1)[1]
+        w = sym.INT_TYPES[ty]
+        lo = -(1 << (w - 1)) if ty[0] == 'i' else 0
+        wrap = lambda r: sym.int_value(ty, sym.int_wrap(ty, r))
+        x, y = a[1], b[1]
+        if m == 'wrapping_add':
+            return (ty, wrap(x + y))
+        if m == 'wrapping_sub':
+            return (ty, wrap(x - y))
+        if m == 'wrapping_mul':
+            return (ty, wrap(x * y))
+        if y == 0:
+            raise EvalPanic(f'{m} by zero')
+        if m in ('rem_euclid', 'div_euclid') and ty[0] == 'i' and x == lo and y == -1:
+            raise EvalPanic(f'{m} overflows for ({x}, {y})')
+        if m in ('wrapping_rem_euclid', 'rem_euclid'):
+            return (ty, wrap(x % abs(y)))
+        if m == 'div_euclid':
+            q = (x - (x % abs(y))) // y
+            return (ty, wrap(q))
+        if m == 'wrapping_rem':
+            return (ty, wrap(abs(x) % abs(y) * (1 if x >= 0 else -1)))
+        if m == 'wrapping_div':
+            return (ty, wrap(abs(x) // abs(y) * (1 if (x >= 0) == (y >= 0) else -1)))
     if tag == 'call' and len(t[2]) == 2 and (cpath(ex, t).endswith('>::max') or cpath(ex, t).endswith('>::min')):
         a = ceval(ex, strip_view(ex, t[2][0]), env)
         b = ceval(ex, strip_view(ex, t[2][1]), env)
